@@ -72,6 +72,22 @@ func RandSeed(s int64) {
 
 // ---- T7: sockets ----
 
+// TCPConn is what the code under test may ask of the socket behind a connection (the rewriter turns assertions to
+// *net.TCPConn into assertions to this interface; *net.TCPConn and the simulated connection both satisfy it).
+type TCPConn interface {
+	net.Conn
+	CloseRead() error
+	CloseWrite() error
+	SetLinger(sec int) error
+	SetNoDelay(noDelay bool) error
+	SetKeepAlive(keepalive bool) error
+	SetKeepAlivePeriod(d time.Duration) error
+	SetReadBuffer(bytes int) error
+	SetWriteBuffer(bytes int) error
+}
+
+var _ TCPConn = (*net.TCPConn)(nil)
+
 func DialTimeout(network, addr string, to time.Duration) (net.Conn, error) {
 	if rt := RT(); rt != nil && rt.Dial != nil && network != "unix" {
 		Yield("net.Dial")
